@@ -21,13 +21,29 @@ def build(native=True):
             if rc != 0:
                 log(out[-4000:])
                 raise SystemExit(2)
-    rc, out, _ = run(["cargo", "kani", "-Z", "stubbing", "--target-dir", KTARGET, "--only-codegen"], cwd=KDIR)
+    # build roto (the dependency) once by running the cheapest harness; every later `--harness X` invocation only
+    # code-generates X (an unfiltered --only-codegen would link all harnesses: minutes)
+    rc, out, _ = run(["cargo", "kani", "-Z", "stubbing", "--target-dir", KTARGET, "--harness",
+                      "c02_layout::c02_layout_union", "--exact"], cwd=KDIR)
     if rc != 0:
         log(out[-6000:])
         log("kani build failed")
         raise SystemExit(2)
     _built["done"] = True
     _built["secs"] = time.time() - t0
+
+
+def all_harnesses():
+    """qualified names of every harness registered in a `crate::list![..]` block of the harness crate"""
+    out = []
+    src_dir = os.path.join(KDIR, "src")
+    for f in sorted(os.listdir(src_dir)):
+        if f.endswith(".rs"):
+            src = open(os.path.join(src_dir, f)).read()
+            m = re.search(r"crate::list!\[(.*?)\];", src, re.S)
+            if m:
+                out += [f"{f[:-3]}::{n.strip()}" for n in m.group(1).split(",") if n.strip()]
+    return out
 
 
 def parse_playback(out):
@@ -45,10 +61,19 @@ def parse_playback(out):
     return vals
 
 
+# failed checks that are *expected* loud stops of the code under test in "must stop" harnesses
+ALLOWED = {
+    "c20_memory::c20_memory_rejects": [r"memory access out of bounds", r"memory access is unaligned", r"attempt to add with overflow"],
+    "c20_memory::c20_memory_dangling_frame": [r"assertion failed: frame\.id == p\.stack_id", r"assertion `left == right` failed", r"index out of bounds"],
+}
+
+
 def run_harness(qname, timeout, mem_gb=16):
     cmd = ["cargo", "kani", "-Z", "stubbing", "-Z", "concrete-playback", "--concrete-playback=print",
            "--target-dir", KTARGET, "--harness", qname, "--exact"]
     rc, out, secs = run(cmd, cwd=KDIR, timeout=timeout, mem_gb=mem_gb)
+    os.makedirs(os.path.join(BUILD, "klogs"), exist_ok=True)
+    open(os.path.join(BUILD, "klogs", qname.replace("::", "__") + ".log"), "w").write(out)
     r = {"harness": qname, "rc": rc, "wall_s": round(secs, 1)}
     m = re.search(r"Verification Time: ([0-9.]+)s", out)
     r["cbmc_s"] = float(m.group(1)) if m else None
@@ -59,6 +84,11 @@ def run_harness(qname, timeout, mem_gb=16):
     r["covers"] = (int(m.group(1)), int(m.group(2))) if m else (0, 0)
     r["stubs"] = re.findall(r"- Stub: (.*)", out)
     failed = re.findall(r"Failed Checks: (.*)", out)
+    if qname in ALLOWED:
+        r["expected_stops"] = [f for f in failed if any(re.search(a, f) for a in ALLOWED[qname])]
+        failed = [f for f in failed if f not in r["expected_stops"]]
+        if not failed and "VERIFICATION:- FAILED" in out and r["expected_stops"]:
+            out = out.replace("VERIFICATION:- FAILED", "VERIFICATION:- SUCCESSFUL (only expected loud stops failed)")
     r["failed"] = failed
     if rc == -999:
         r["status"] = "timeout"
